@@ -15,10 +15,12 @@ package limit
 
 import (
 	"bufio"
+	"bytes"
 	"context"
 	"encoding/json"
 	"errors"
 	"os"
+	"runtime"
 	"strconv"
 	"strings"
 	"sync"
@@ -32,6 +34,84 @@ import (
 	"github.com/zeromicro/go-zero/core/logx"
 	"github.com/zeromicro/go-zero/core/stores/redis"
 )
+
+// A log writer that is ALWAYS installed: it discards everything, and while its gate is armed it
+// parks the monitor goroutine (any goroutine with waitForRedis on its stack) inside whatever log
+// call it makes.  HEAD's monitor logs nothing, so nothing is ever parked on HEAD; code that logs on
+// the monitor's way out (between redisAlive = 1 and the clearing of monitorStarted) gets that
+// window held open for as long as the schedule wants.
+type verifLogGate struct {
+	mu      sync.Mutex
+	armed   bool
+	held    int
+	release chan struct{}
+}
+
+var verifLog = &verifLogGate{}
+
+func (g *verifLogGate) arm() {
+	g.mu.Lock()
+	g.armed, g.release = true, make(chan struct{})
+	g.mu.Unlock()
+}
+
+func (g *verifLogGate) open() {
+	g.mu.Lock()
+	if g.armed {
+		g.armed = false
+		close(g.release)
+	}
+	g.mu.Unlock()
+	for k := 0; k < 500; k++ { // let the parked goroutines leave their log calls
+		g.mu.Lock()
+		h := g.held
+		g.mu.Unlock()
+		if h == 0 {
+			break
+		}
+		time.Sleep(time.Millisecond)
+	}
+}
+
+func (g *verifLogGate) parked() int {
+	g.mu.Lock()
+	defer g.mu.Unlock()
+	return g.held
+}
+
+func (g *verifLogGate) hold() {
+	g.mu.Lock()
+	if !g.armed {
+		g.mu.Unlock()
+		return
+	}
+	buf := make([]byte, 8192)
+	buf = buf[:runtime.Stack(buf, false)]
+	if !bytes.Contains(buf, []byte(".waitForRedis")) {
+		g.mu.Unlock()
+		return
+	}
+	g.held++
+	ch := g.release
+	g.mu.Unlock()
+	select {
+	case <-ch:
+	case <-time.After(5 * time.Second):
+	}
+	g.mu.Lock()
+	g.held--
+	g.mu.Unlock()
+}
+
+func (g *verifLogGate) Alert(v any)                     { g.hold() }
+func (g *verifLogGate) Close() error                    { return nil }
+func (g *verifLogGate) Debug(v any, _ ...logx.LogField) { g.hold() }
+func (g *verifLogGate) Error(v any, _ ...logx.LogField) { g.hold() }
+func (g *verifLogGate) Info(v any, _ ...logx.LogField)  { g.hold() }
+func (g *verifLogGate) Severe(v any)                    { g.hold() }
+func (g *verifLogGate) Slow(v any, _ ...logx.LogField)  { g.hold() }
+func (g *verifLogGate) Stack(v any)                     { g.hold() }
+func (g *verifLogGate) Stat(v any, _ ...logx.LogField)  {}
 
 type verifCase struct {
 	ID      int      `json:"id"`
@@ -56,6 +136,7 @@ type verifCase struct {
 	} `json:"groups"` // token: limiters on several keys of one store ...
 	InstGroup []int `json:"inst_group"` // ... and the group of every instance
 	Breaker bool     `json:"breaker"` // may push go-zero's circuit breaker over its threshold
+	Window  bool     `json:"window"`  // uses the (process-wide) log gate: run alone, after the pool
 	Ops     [][]any  `json:"ops"`
 }
 
@@ -435,6 +516,7 @@ func verifTokenOnce(c verifCase) (out verifOut) {
 	}
 	defer func() {
 		// let monitors finish so that no goroutine keeps pinging a dead port
+		verifLog.open()
 		if st.down {
 			st.setUp()
 		}
@@ -593,6 +675,45 @@ func verifTokenOnce(c verifCase) (out verifOut) {
 		case "down":
 			st.setDown()
 			out.Obs = append(out.Obs, nil)
+		case "arm": // from now on the monitor goroutine is parked inside any log call it makes
+			verifLog.arm()
+			out.Obs = append(out.Obs, nil)
+		case "release":
+			verifLog.open()
+			out.Obs = append(out.Obs, nil)
+		case "upw": // the store answers again; wait until the monitors have SEEN it (redisAlive = 1), not until they are gone
+			if err := st.setUp(); err != nil {
+				out.Err = err.Error()
+				return
+			}
+			alive := make([]bool, len(lims))
+			deadline := time.Now().Add(patience)
+			for polls := 0; ; polls++ {
+				all := true
+				for i, l := range lims {
+					alive[i] = verifAlive(l)
+					all = all && alive[i]
+				}
+				if all || (time.Now().After(deadline) && polls >= 400) {
+					break
+				}
+				time.Sleep(2 * time.Millisecond)
+			}
+			// a monitor that logs on its way out arrives in the gate now; HEAD's has already gone
+			for k := 0; k < 30 && verifLog.parked() == 0; k++ {
+				anyMon := false
+				for _, l := range lims {
+					anyMon = anyMon || verifMonitor(l)
+				}
+				if !anyMon {
+					break
+				}
+				time.Sleep(time.Millisecond)
+			}
+			for i := range expect {
+				expect[i] = alive[i]
+			}
+			out.Obs = append(out.Obs, map[string][]bool{"alive": alive})
 		case "hold": // real time passes (an outage long enough for monitor pings to fail)
 			time.Sleep(time.Duration(vnum(op[1])) * time.Millisecond)
 			out.Obs = append(out.Obs, nil)
@@ -640,7 +761,9 @@ func verifToken(c verifCase) verifOut {
 }
 
 func TestVerifC03(t *testing.T) {
-	logx.Disable()
+	logx.DisableStat()
+	logx.SetLevel(logx.DebugLevel)
+	logx.SetWriter(verifLog)
 	// PeriodLimit with Align() reads the zone of time.Now(): the run chooses the process' zone
 	if v := os.Getenv("VERIF_TZ_OFFSET"); v != "" {
 		if off, err := strconv.Atoi(v); err == nil {
@@ -681,6 +804,9 @@ func TestVerifC03(t *testing.T) {
 				if j >= len(cases) {
 					return
 				}
+				if cases[j].Window {
+					continue // the log gate is process-wide: these run alone, below
+				}
 				func() {
 					defer func() {
 						if r := recover(); r != nil {
@@ -697,6 +823,18 @@ func TestVerifC03(t *testing.T) {
 		}()
 	}
 	wg.Wait()
+	for j := range cases {
+		if cases[j].Window {
+			func() {
+				defer func() {
+					if r := recover(); r != nil {
+						outs[j] = verifOut{ID: cases[j].ID, Err: "panic"}
+					}
+				}()
+				outs[j] = verifToken(cases[j])
+			}()
+		}
+	}
 	for _, out := range outs {
 		b, _ := json.Marshal(out)
 		w.Write(b)
